@@ -177,5 +177,10 @@ func runProp(pd *propDef, repo, verif, tier string, seed int64, evPath string, s
 			runMutants(c, pd, repo, verif)
 		}
 	}
+	if os.Getenv("MDS_DUMP") != "" {
+		for _, o := range c.Obligs {
+			fmt.Printf("  %-9s %s/%s @%s %s\n", o.Verdict, o.Rule, o.Construct, o.Pos, o.Msg)
+		}
+	}
 	return c.finish(verif, time.Since(start).Seconds(), seed, evPath, false)
 }
